@@ -5,6 +5,6 @@ set -e
 REPO=${VERIF_REPO:-/repo}
 D=$(mktemp -d /tmp/vf-baseline-XXXXXX)
 trap 'rm -rf "$D"' EXIT
-cmake -G Ninja -S "$REPO" -B "$D" -DWITH_UNIT_TESTS=ON -DCMAKE_BUILD_TYPE=RelWithDebInfo >/dev/null
+cmake -G Ninja -S "$REPO" -B "$D" -DWITH_UNIT_TESTS=ON -DCMAKE_BUILD_TYPE=RelWithDebInfo >/dev/null 2>&1
 cmake --build "$D" -j16 >/dev/null
 ctest --test-dir "$D" -j8 --timeout 900
